@@ -89,8 +89,14 @@ func (w *World) jumpTableWrites() []slotWrite {
 						var elt ast.Expr
 						if e == l && i < len(x.Rhs) {
 							elt = x.Rhs[i]
+							// `op := &operation{…}; tbl[K] = op`: look through a local assigned once
+							if id, ok := ast.Unparen(elt).(*ast.Ident); ok {
+								if init := localSingleInit(info, fd, id); init != nil {
+									elt = init
+								}
+							}
 						}
-						out = append(out, slotWrite{name, k, x.Pos(), elt})
+						out = append(out, slotWrite{name, k, x.Pos(), w.expandOpHelper(info, elt)})
 					}
 				case *ast.CompositeLit:
 					t := info.TypeOf(x)
@@ -103,7 +109,7 @@ func (w *World) jumpTableWrites() []slotWrite {
 							continue
 						}
 						if k, ok := constIdx(kv.Key); ok {
-							out = append(out, slotWrite{name, k, kv.Pos(), kv.Value})
+							out = append(out, slotWrite{name, k, kv.Pos(), w.expandOpHelper(info, kv.Value)})
 						}
 					}
 				}
@@ -214,6 +220,8 @@ func addTableRules(w *World, r *Report, rule string) {
 			key := "vm." + en + "/used-by:" + u
 			if enablerCallers[en][u] || u == "var activators" {
 				r.holds(rule, key, w.pos(users[u]), "reviewed user of the enabler (Cancun constructor / extra-EIP activator table)")
+			} else if w.onlyUsedBy(u, enablerCallers[en], 0) {
+				r.holds(rule, key, w.pos(users[u]), "a fork-only helper that is itself referenced only from the reviewed user(s) of the enabler")
 			} else {
 				r.violated(rule, key, w.pos(users[u]), en+" is referenced from "+u+": a fork-only slot would leak into another instruction set")
 			}
@@ -312,4 +320,153 @@ func addOmitEmpty(w *World, r *Report, rule string) {
 		}
 	}
 	r.need(rule, 4)
+}
+
+
+// localSingleInit: the initialiser of a local variable that is assigned exactly once in fd (by := or var).
+func localSingleInit(info *types.Info, fd *ast.FuncDecl, id *ast.Ident) ast.Expr {
+	obj := info.Uses[id]
+	if obj == nil {
+		return nil
+	}
+	var init ast.Expr
+	n := 0
+	ast.Inspect(fd.Body, func(nd ast.Node) bool {
+		switch x := nd.(type) {
+		case *ast.AssignStmt:
+			for i, l := range x.Lhs {
+				if lid, ok := l.(*ast.Ident); ok && (info.Defs[lid] == obj || info.Uses[lid] == obj) {
+					n++
+					if len(x.Rhs) == len(x.Lhs) {
+						init = x.Rhs[i]
+					}
+				}
+			}
+		case *ast.ValueSpec:
+			for i, nm := range x.Names {
+				if info.Defs[nm] == obj {
+					n++
+					if i < len(x.Values) {
+						init = x.Values[i]
+					}
+				}
+			}
+		case *ast.UnaryExpr:
+			// address taken of the variable itself: may be written elsewhere
+			if uid, ok := x.X.(*ast.Ident); ok && x.Op == token.AND && info.Uses[uid] == obj {
+				n += 2
+			}
+		}
+		return true
+	})
+	if n != 1 {
+		return nil
+	}
+	return init
+}
+
+// expandOpHelper: a table element built by a fork helper whose whole body is `return <operation literal>`
+// (e.g. newJournalOperation(execute, pops)) is read as that literal with the helper's parameters replaced by
+// the arguments of the call; the rules on table literals then apply unchanged.
+func (w *World) expandOpHelper(info *types.Info, elt ast.Expr) ast.Expr {
+	if elt == nil {
+		return nil
+	}
+	call, ok := ast.Unparen(elt).(*ast.CallExpr)
+	if !ok || call.Ellipsis.IsValid() {
+		return elt
+	}
+	id, ok := call.Fun.(*ast.Ident)
+	if !ok {
+		return elt
+	}
+	f, ok := info.Uses[id].(*types.Func)
+	if !ok || f.Pkg() == nil || f.Pkg().Path() != forkPath(pkVM) {
+		return elt
+	}
+	hd, _ := w.FuncDecl(forkPath(pkVM), f.Name())
+	if hd == nil || hd.Body == nil || len(hd.Body.List) != 1 || hd.Recv != nil {
+		return elt
+	}
+	ret, ok := hd.Body.List[0].(*ast.ReturnStmt)
+	if !ok || len(ret.Results) != 1 {
+		return elt
+	}
+	res := ast.Unparen(ret.Results[0])
+	lit := res
+	if u, isU := res.(*ast.UnaryExpr); isU && u.Op == token.AND {
+		lit = ast.Unparen(u.X)
+	}
+	if _, isLit := lit.(*ast.CompositeLit); !isLit {
+		return elt
+	}
+	bind := map[types.Object]ast.Expr{}
+	i := 0
+	for _, fld := range hd.Type.Params.List {
+		if _, isV := fld.Type.(*ast.Ellipsis); isV {
+			return elt
+		}
+		for _, nm := range fld.Names {
+			if i >= len(call.Args) {
+				return elt
+			}
+			bind[info.Defs[nm]] = call.Args[i]
+			i++
+		}
+	}
+	if i != len(call.Args) {
+		return elt
+	}
+	var sub func(e ast.Expr) ast.Expr
+	sub = func(e ast.Expr) ast.Expr {
+		switch x := e.(type) {
+		case *ast.Ident:
+			if a, ok := bind[info.Uses[x]]; ok {
+				return a
+			}
+		case *ast.ParenExpr:
+			return &ast.ParenExpr{Lparen: x.Lparen, X: sub(x.X), Rparen: x.Rparen}
+		case *ast.CallExpr:
+			n := &ast.CallExpr{Fun: sub(x.Fun), Lparen: x.Lparen, Ellipsis: x.Ellipsis, Rparen: x.Rparen}
+			for _, a := range x.Args {
+				n.Args = append(n.Args, sub(a))
+			}
+			return n
+		case *ast.UnaryExpr:
+			return &ast.UnaryExpr{OpPos: x.OpPos, Op: x.Op, X: sub(x.X)}
+		case *ast.BinaryExpr:
+			return &ast.BinaryExpr{X: sub(x.X), OpPos: x.OpPos, Op: x.Op, Y: sub(x.Y)}
+		case *ast.KeyValueExpr:
+			return &ast.KeyValueExpr{Key: x.Key, Colon: x.Colon, Value: sub(x.Value)}
+		case *ast.CompositeLit:
+			n := &ast.CompositeLit{Type: x.Type, Lbrace: x.Lbrace, Rbrace: x.Rbrace}
+			for _, el := range x.Elts {
+				n.Elts = append(n.Elts, sub(el))
+			}
+			return n
+		}
+		return e
+	}
+	return sub(res)
+}
+
+// onlyUsedBy: the function named u (package vm) is fork-only and every reference to it lies in a function of
+// `allowed`, or in another fork-only function for which the same holds.
+func (w *World) onlyUsedBy(u string, allowed map[string]bool, depth int) bool {
+	if depth > 3 || w.funcIdx[refPath(pkVM)][u] != nil || w.funcIdx[forkPath(pkVM)][u] == nil {
+		return false
+	}
+	users := w.usersOfFunc(pkVM, u)
+	if len(users) == 0 {
+		return false
+	}
+	for v := range users {
+		if allowed[v] {
+			continue
+		}
+		if v == u || !w.onlyUsedBy(v, allowed, depth+1) {
+			return false
+		}
+	}
+	return true
 }
